@@ -491,6 +491,7 @@ func Termination(r *core.Run, sc *Scope, tc TermConfig) {
 	if tc.MinSites > 0 {
 		r.Floor("R-TERM/T-rec", tc.MinSites, "call sites inside recursion cycles reachable from the entry points")
 	}
+	CostBounds(r, sc, tc.Table)
 }
 
 func keysOf(m map[string]bool) string {
@@ -1135,6 +1136,14 @@ func loopTerminates(info *types.Info, f *ScopeFunc, fs *ast.ForStmt, ci, ciStron
 								ok = true
 							}
 						}
+						// dropping from the end: x = x[:len(x)-k]
+						if se, isSl := core.Unparen(rhs).(*ast.SliceExpr); isSl && core.ExprStr(se.X) == shr && se.Low == nil && se.High != nil {
+							if b, isB := core.Unparen(se.High).(*ast.BinaryExpr); isB && b.Op == token.SUB && core.ExprStr(b.X) == "len("+shr+")" {
+								if k, isC := core.ConstInt(info, b.Y); isC && k >= 1 {
+									ok = true
+								}
+							}
+						}
 					}
 				}
 			}
@@ -1234,4 +1243,113 @@ func tarjan(nodes []*ScopeFunc, succ func(*ScopeFunc) []*ScopeFunc) [][]*ScopeFu
 // loopCFG builds the go/cfg graph of the function body.
 func loopCFG(f *ScopeFunc) *cfg.CFG {
 	return cfg.New(f.Body, func(*ast.CallExpr) bool { return true })
+}
+
+// CostBounds arms R-TERM/T-cost over the scope: values whose *magnitude* (not
+// length) is controlled by the input must be bounded before an operation whose
+// cost grows with the magnitude. A decimal parsed from text carries an
+// exponent of up to 2^31; String, BigInt, IntPart, Round, arithmetic with
+// another decimal … all expand it to 10^exp. The only accepted discharge is an
+// explicit test of Exponent() that leaves the function, placed before any
+// other use of the value.
+func CostBounds(r *core.Run, sc *Scope, table string) {
+	r.Rule("R-TERM/T-cost", "every shopspring decimal parsed from text (decimal.NewFromString / RequireFromString) in the reachable set is passed through `if d.Exponent() > K || d.Exponent() < -K { return … }` before any other use: otherwise a few bytes of input (\"1e999999999\") make String/BigInt/arithmetic expand 10^exp; big.Int.Exp and big.Float text parsing are listed as well")
+	n := 0
+	for _, f := range sc.Funcs {
+		info := f.Pkg.TypesInfo
+		f.InspectOwn(func(nd ast.Node) bool {
+			as, ok := nd.(*ast.AssignStmt)
+			var call *ast.CallExpr
+			if ok && len(as.Rhs) == 1 {
+				call, _ = core.Unparen(as.Rhs[0]).(*ast.CallExpr)
+			}
+			if call == nil {
+				if c, isCall := nd.(*ast.CallExpr); isCall {
+					name := core.CalleeName(info, c)
+					if name == "(*math/big.Int).Exp" || name == "(*math/big.Float).SetString" || name == "(*math/big.Float).Parse" {
+						n++
+						o := r.Add("R-TERM/T-cost", siteKey(f, "call "+core.ExprStr(c.Fun)), c.Pos(), "big-number operation whose cost grows with the magnitude of its operand")
+						if !r.Table(table, o) {
+							o.Fail("%s on a value that may come from the input: cost is not bounded by the input length", name)
+						}
+					}
+				}
+				return true
+			}
+			name := core.CalleeName(info, call)
+			if !strings.HasSuffix(name, "shopspring/decimal.NewFromString") && !strings.HasSuffix(name, "shopspring/decimal.RequireFromString") && !strings.HasSuffix(name, "shopspring/decimal.NewFromFormattedString") {
+				return true
+			}
+			n++
+			o := r.Add("R-TERM/T-cost", siteKey(f, "decimal parsed from "+core.ExprStr(call.Args[0])), call.Pos(), "decimal parsed from text")
+			id, isID := as.Lhs[0].(*ast.Ident)
+			if !isID || id.Name == "_" {
+				o.Fail("the parsed decimal is not bound to a variable that could be range-checked")
+				return true
+			}
+			obj := info.Defs[id]
+			if obj == nil {
+				obj = info.Uses[id]
+			}
+			// first use of the variable after the definition (other than err checks) must be the guard
+			guarded, firstUse := false, ""
+			var block []ast.Stmt
+			for _, p := range core.PathTo(f.Body, as) {
+				if b, ok := p.(*ast.BlockStmt); ok {
+					block = b.List
+				}
+			}
+			after := false
+			for _, st := range block {
+				if st == ast.Stmt(as) {
+					after = true
+					continue
+				}
+				if !after {
+					continue
+				}
+				uses := false
+				ast.Inspect(st, func(x ast.Node) bool {
+					if i2, ok := x.(*ast.Ident); ok && info.Uses[i2] == obj {
+						uses = true
+					}
+					return true
+				})
+				if !uses {
+					continue
+				}
+				if ifs, ok := st.(*ast.IfStmt); ok && strings.Contains(core.ExprStr(ifs.Cond), id.Name+".Exponent()") && terminates(info, ifs.Body.List) {
+					guarded = true
+				} else {
+					firstUse = core.ExprStr(stmtExprAny(st))
+				}
+				break
+			}
+			switch {
+			case guarded:
+				o.Auto("the first use of %s is an exponent range test that leaves the function", id.Name)
+			case r.Table(table, o):
+			default:
+				o.Fail("%s is used (%s) without a test of %s.Exponent(): its text form, integer part or sum with another decimal expands 10^exponent, with an exponent of up to 2^31 taken from a few bytes of input", id.Name, firstUse, id.Name)
+			}
+			return true
+		})
+	}
+	r.Analysed["magnitude_sensitive_sites"] = n
+}
+
+func stmtExprAny(s ast.Stmt) ast.Expr {
+	switch x := s.(type) {
+	case *ast.ExprStmt:
+		return x.X
+	case *ast.AssignStmt:
+		return x.Rhs[0]
+	case *ast.ReturnStmt:
+		if len(x.Results) > 0 {
+			return x.Results[0]
+		}
+	case *ast.IfStmt:
+		return x.Cond
+	}
+	return &ast.Ident{Name: "…"}
 }
